@@ -382,6 +382,34 @@ def check_nonempty_batches(ctx, fb):
               why or "helper call sites found: %d" % n, loc(it))
 
 
+def check_removal_mark(ctx, fb):
+    """R08-7: resetting a position never raises the leaf-count high-water mark (a single delete of a never-written position does not:
+    in-memory trees ignore it, pmtree rejects it), so a removal-only batch must not either. pmtree::set_range(first, values) raises the mark to
+    first + len(values) when that is beyond it: a removal helper may only write a span that ends at or below leaves_set()"""
+    it = fb.one(r"PmTree::remove_indices$")
+    ctx.touch(it)
+    eng = Engine(fb, inline=lambda i: False)
+    bounded = None
+    n = 0
+    for p in eng.run(it):
+        cs = [(i, e) for i, e in enumerate(p.trace) if e[0] == "call" and re.search(r"MerkleTree::<D, H>::set_range$", e[1])]
+        if not cs:
+            continue
+        n += 1
+        i = cs[0][0]
+        # accepted evidence: a comparison against leaves_set() that involves the removal list precedes the write, or the list
+        # that defines the span has been filtered against leaves_set()
+        g = [c for j, c in enumerate(p.trace) if j < i and c[0] == "cond" and "leaves_set" in repr(c[1]) and contains(c[1], P(2))]
+        flt = [e for j, e in enumerate(p.trace) if j < i and e[0] == "call" and e[1].endswith("Iterator::filter") and "leaves_set" in repr(e[2])]
+        ok_here = bool(g) or bool(flt)
+        bounded = ok_here if bounded is None else (bounded and ok_here)
+    ctx.check(bool(bounded) and n >= 1, "R08-7", "pmtree::remove_indices keeps the high-water mark",
+              "the span written by a removal-only batch is bounded by leaves_set()",
+              "PmTree::remove_indices writes the span indices[0] .. last + 1 through pmtree::set_range without relating it to leaves_set(): removing positions that were never "
+              "written raises the high-water mark to last + 1, unlike single deletions and unlike the in-memory trees", loc(it))
+    # in-memory trees: removals go through delete, which is guarded by index < next_index (C06 R06-2); nothing else to check here
+
+
 def run(ctx):
     cfgs = ["default", "optimal"] if ctx.tier == "quick" else ["default", "optimal", "full"]
     ctx.prefetch(cfgs + ["fixtures"])
@@ -390,6 +418,7 @@ def run(ctx):
     check_inmemory(ctx, fb, "full")
     check_pmtree(ctx, fb)
     check_nonempty_batches(ctx, fb)
+    check_removal_mark(ctx, fb)
     old_hook = panics.ensures_hook
     n = 0
     try:
